@@ -231,6 +231,18 @@ pub fn edit(ctx: &mut Ctx) {
             ctx.violation("C10", "editing command failed on a valid archive", json!({"case":attrs,"run":r.brief()}));
             continue;
         }
+        let after_for_sizes = read_archive_file(&apath, pw.as_deref());
+        if let Ok(items) = &after_for_sizes {
+            // C18 after an edit: the size an entry reports is still the size of what it decodes to
+            for e in flat(items) {
+                if let (0, Some(rs), Some(c)) = (e.kind, e.raw_size, e.content.as_ref()) {
+                    ctx.oracle_eval();
+                    if rs != c.len() as u128 {
+                        ctx.violation("C18", "after an editing command an entry records a raw size different from its decoded length", json!({"entry":e.name,"raw_size":rs.to_string(),"decoded":c.len()}));
+                    }
+                }
+            }
+        }
         let after = match read_archive_file(&apath, pw.as_deref()) { Ok(v) => v, Err(e) => { ctx.violation("C10", "archive unreadable after an editing command", json!({"case":attrs,"why":e})); ctx.violation("C14", "editing command wrote an unreadable archive", json!({"case":attrs,"why":e})); continue; } };
         // ---- model correspondence
         ctx.case(json!({"cmd":cmd,"strategy":strategy,"n":names.len()}), format!("{model_req}{}", items_wire(&before)), format!("ok {}", items_wire(&after)), true);
